@@ -283,13 +283,63 @@ def r10_5(ctx: Ctx) -> None:
         raise AnalysisError("R10.5: no coordinate-sorted part list reaching a location builder found (expected the sub-location builder)")
 
 
+def r10_6(ctx: Ctx) -> None:
+    """ lists of area numbers are written in the order of the member list: reload re-links the members in the order
+        of the numbers, and number strings do not sort numerically ('10' < '2') """
+    from ..cfg import CFG
+    from ..flow import inline_reaching
+    from .c12 import NUMBER_GETTERS
+    classes = [c for c in ctx.repo.subclasses("Feature") if c.module.rel.startswith(SECMET)]
+    count = 0
+    for info in sorted(classes, key=lambda c: c.qual):
+        func = next((n for n in info.node.body if isinstance(n, ast.FunctionDef) and n.name == "to_biopython"), None)
+        if func is None:
+            continue
+        cfg = None
+        for node in walk_local(func):
+            if not isinstance(node, ast.Assign):
+                continue
+            for target in node.targets:
+                if not (isinstance(target, ast.Subscript) and isinstance(target.slice, ast.Constant)
+                        and isinstance(target.slice.value, str)):
+                    continue
+                cfg = cfg or CFG(func)
+                value = inline_reaching(cfg, node, node.value)
+                text = txt(value)
+                if not any(g in text for g in NUMBER_GETTERS):
+                    continue
+                comps = [n for n in ast.walk(value) if isinstance(n, (ast.ListComp, ast.GeneratorExp, ast.SetComp))]
+                if not comps:
+                    continue
+                count += 1
+                ctx.repo.consulted.add(info.module.rel)
+                bad = []
+                for sub in ast.walk(value):
+                    if isinstance(sub, ast.SetComp):
+                        bad.append("set comprehension")
+                    if isinstance(sub, ast.Call) and call_name(sub) in ("set", "frozenset", "reversed"):
+                        bad.append(f"{call_name(sub)}()")
+                    if isinstance(sub, ast.Call) and call_name(sub) == "sorted":
+                        key = kwarg(sub, "key")
+                        if key is None or txt(key) != "int":
+                            bad.append("sorted() on number strings is lexicographic")
+                ctx.ob("R10.6", info.module.rel, node, f"{info.name}.to_biopython", f"number list `{target.slice.value}`", not bad,
+                       "a list of member numbers is written in member-list order (reload re-links members in the order of the "
+                       "numbers; number strings do not sort numerically)",
+                       detail="; ".join(bad), form=text[:140])
+    if count < 3:
+        raise AnalysisError(f"expected at least 3 number-list qualifiers in to_biopython methods, found {count}")
+
+
 def run(ctx: Ctx) -> None:
     ctx.rule("R10.1", "qualifiers required on reload are written by to_biopython", floor=12)
     ctx.rule("R10.2", "all stored feature lists are written out; dispatch by resolved feature type", floor=12)
     ctx.rule("R10.3", "reference-resolving classes are postponed in dependency order", floor=4)
     ctx.rule("R10.4", "serialiser readers require only keys their writers emit", floor=8)
     ctx.rule("R10.5", "coordinate-sorted parts are restored to strand order before building a location", floor=1)
+    ctx.rule("R10.6", "member-number lists are written in member order, never string-sorted", floor=3)
     r10_1(ctx)
+    r10_6(ctx)
     r10_2(ctx)
     r10_3(ctx)
     r10_4(ctx)
